@@ -143,3 +143,11 @@ META = {
         'Loader.find_assignment', 'scheduler.Cell.schedule'],
     'reach_required': ['started', 'cycle_after_event'],
 }
+
+
+def weight(name, spec):
+    if 'server_edit' in name or 'schedule' in name:
+        return 5
+    if 'presence_down' in name or 'r01' in name:
+        return 3
+    return 1
